@@ -154,6 +154,11 @@ func main() {
 		fatal("bad tier %q", *tier)
 	}
 	seed, _ := strconv.Atoi(envOr("VERIF_SEED", "0"))
+	if *replay != "" {
+		if abs, err := filepath.Abs(*replay); err == nil {
+			*replay = abs
+		}
+	}
 
 	start := time.Now()
 	var sp spec
